@@ -32,6 +32,8 @@ func Dev(name string, c *core.Ctx) {
 	switch name {
 	case "bituses":
 		DumpBitUses(c)
+	case "pkgstate":
+		DumpPkgState(c)
 	default:
 		fmt.Println("unknown dev dump", name)
 	}
